@@ -36,7 +36,7 @@ struct ExpectedSignal {
 };
 
 struct StopExpect {
-  enum Kind { STATUS, TIMEDOUT, EINVAL_, HANG, WAIT_ERROR } kind = STATUS;
+  enum Kind { STATUS, TIMEDOUT, EINVAL_, HANG, WAIT_ERROR, INAPPLICABLE } kind = STATUS;
   int error = 0;                    // WAIT_ERROR: the error the failing wait returned
   std::vector<int> statuses;        // acceptable statuses (two at a tie)
   std::vector<ExpectedSignal> signals;
@@ -50,10 +50,13 @@ struct StopExpect {
 // `child_first`: how an exact tie between the child's death and the end of a
 // wait window is resolved (both resolutions are acceptable behaviour).
 // `fail_wait` >= 0: the wait of the fail_wait-th executed step fails with
-// `fail_error` (an interrupted poll, say) instead of waiting: the request ends
-// there with that error ("the error of a failed action otherwise") - nothing
-// further is sent.
-inline StopExpect interpret_stop(const StopAction in[3], ChildScript c, int64_t t, int64_t deadline_abs, bool already_reaped, int cached_status, bool child_first = true, int fail_wait = -1, int fail_error = 0)
+// `fail_error` (an interrupted poll, say): the request ends there with that
+// error ("the error of a failed action otherwise") - nothing further is sent.
+// `fail_at` < 0: the wait fails as it begins. `fail_at` >= 0: it fails at that
+// absolute time, which must lie within the wait (begin <= fail_at <= its end);
+// when it does not, the result has kind INAPPLICABLE (the caller is trying out
+// which wait an observed interruption belongs to).
+inline StopExpect interpret_stop(const StopAction in[3], ChildScript c, int64_t t, int64_t deadline_abs, bool already_reaped, int cached_status, bool child_first = true, int fail_wait = -1, int fail_error = 0, int64_t fail_at = -1)
 {
   StopExpect e;
   if (already_reaped) {
@@ -125,19 +128,24 @@ inline StopExpect interpret_stop(const StopAction in[3], ChildScript c, int64_t 
       }
       e.trace += "step " + std::to_string(i) + ": SIGKILL at " + std::to_string(t) + "; ";
     }
-    if (fail_wait >= 0 && waits_done++ == fail_wait) {
-      e.kind = StopExpect::WAIT_ERROR;
-      e.error = fail_error;
-      e.end = t;
-      e.trace += "step " + std::to_string(i) + ": the wait fails with " + std::to_string(fail_error) + " => that error; ";
-      return e;
-    }
     // wait up to the action's timeout
     int64_t window;
     if (a[i].timeout == TO_INFINITE) window = T_INF;
     else if (a[i].timeout == TO_DEADLINE) window = deadline_abs == T_INF ? T_INF : (deadline_abs > t ? deadline_abs - t : 0);
     else window = a[i].timeout;
     int64_t until = window == T_INF ? T_INF : t + window;
+    if (fail_wait >= 0 && waits_done++ == fail_wait) {
+      int64_t wait_end = death != T_INF && death < until ? (death > t ? death : t) : until;
+      if (fail_at >= 0 && (fail_at < t || fail_at > wait_end)) {
+        e.kind = StopExpect::INAPPLICABLE;
+        return e;
+      }
+      e.kind = StopExpect::WAIT_ERROR;
+      e.error = fail_error;
+      e.end = fail_at >= 0 ? fail_at : t;
+      e.trace += "step " + std::to_string(i) + ": the wait (begun at " + std::to_string(t) + ") fails with " + std::to_string(fail_error) + " at " + std::to_string(e.end) + " => that error; ";
+      return e;
+    }
     if ((child_first ? death <= until : (death < until || death <= t)) && death != T_INF) {
       if (death > t) t = death;
       e.kind = StopExpect::STATUS;
